@@ -8,6 +8,18 @@ TB = ("Trusted: Lean 4.33.0 kernel (axioms propext, Classical.choice, Quot.sound
 CLAIMED = {
  "C02": dict(text="Lean theorems over the message codec model: header layout, length 24, unpack(pack)=fields for every command, every 32-bit argument and every payload, magic = complement, wire tables equal the generated constants, and the strict parser recovers exactly the emitted messages from any concatenation. Tie: constants regenerated from source; AdbMessage.pack/unpack/checksum compared with the model on thousands of cases; the Lean parser is run on the implementation's emitted bytes.",
              technique="Lean 4 theorems (round-trip law, induction over message lists) + differential correspondence", ref="6/C02"),
+ "C03": dict(text="Lean theorems about the byte-stream reader for EVERY scripted transport (any fragmentation, empty reads, faults, timing): a normal return of _read_bytes yields exactly the next n bytes, every bulk_read asks for exactly the bytes still missing, _read_packet returns exactly the next packet and only with a known command and (non-empty payload) a matching checksum, two worlds with the same device byte stream deliver the same packet. Tie: sessions on AdbDevice and AdbDeviceAsync under 6 fragmentations must equal the unfragmented run and the model; corrupted packets; an over-request flag in the fake transport.",
+             technique="Lean 4 theorems (induction on loop fuel over a scripted-transport world) + metamorphic/differential correspondence", ref="6/C03"),
+ "C12": dict(text="Lean theorems: every public operation (and every history of operations), in every world with arbitrary fault scripts and whatever its outcome, leaves the set of held locks unchanged (proved through a frame predicate established for each of ~60 model functions); close() always completes on an idle object and leaves it unavailable with an empty store and a closed transport; connect() begins by closing the transport and emptying the store. Tie: a fault at a random inbound/outbound offset of a session touching every operation, then close, reconnect and replay, on both twins, compared with the model and judged by result oracles.",
+             technique="Lean 4 theorems (frame/invariant by structural induction over the model) + fault-injection correspondence", ref="6/C12", note="'returns the correct result' after reconnect rests on the exactness theorems of the other properties and on the sampled correspondence. "),
+ "C13": dict(text="Lean theorems: the guard table generated from both source files is complete (availability check everywhere, path check first) and equal for the twins; on an unavailable device every stream operation returns AdbConnectionError with the world UNCHANGED (no transport call, no byte, no file, no id); an empty path gives DevicePathInvalidError with the world unchanged; stream operations never change `available`; `available` over any history equals the specification. Tie: exhaustive op sequences up to length 2 (thorough 3) over 18 step kinds on both twins plus random ones.",
+             technique="Lean 4 theorems (decision logic over a generated guard table; invariant over histories) + exhaustive short-sequence correspondence", ref="6/C13"),
+ "C15": dict(text="Lean theorems about the write loop for EVERY acceptance script: one bulk_write appends exactly the accepted prefix to what the peer has; _write_all returning normally means the peer has every byte, any other outcome leaves a clean prefix; _send delivers exactly header+payload or raises; progress under a healthy transport. Tie: all scenario families over short-writing transports (1 byte, header splits, random, None-returning) on both twins; the Lean parser on the peer's bytes; file-content oracles. Real-socket part: see C18.",
+             technique="Lean 4 theorems (induction on loop fuel) + differential correspondence over short-write transports", ref="6/C15", note="kernel socket buffers are exercised only by the C18 loopback runs. "),
+ "C16": dict(text="One model for both implementations: determinism of the model and the step from 'both correspond' to 'they agree' are stated in Lean, plus generated structural twin facts (guards, lock nesting, calls under locks). The deciding work is the correspondence: every scenario family runs through AdbDevice and AdbDeviceAsync and the two are compared directly with each other and with the model.",
+             technique="Lean 4 (determinism + generated twin facts) with differential correspondence of both twins against one model", ref="6/C16", note="agreement is as strong as the sampled correspondence of each twin. "),
+ "C19": dict(text="Lean refinement proof: the nested insertion-ordered dict model transcribed from _AdbPacketStore refines an abstract map (arg0,arg1) -> FIFO queue for put/get/clear/clear_all over histories of any length; find and find_allow_zeros are sound and complete against the set of pending pairs for every wildcard pattern; len counts pending pairs. Tie: the real store is driven with all op sequences up to length 3 over a small alphabet and long random ones; wildcard choices are validated against the specification, everything else compared exactly.",
+             technique="Lean 4 refinement proof (invariant + simulation over histories) + exhaustive/random differential correspondence", ref="6/C19"),
 }
 PENDING = {}
 ALL = ["C%02d" % i for i in range(1, 21)]
@@ -27,10 +39,10 @@ def main():
              setup_cmd="cd lean && lake build AdbModel adbdriver AdbProofs",
              hooks=dict(guard="ADB_SHELL_VERIF", enable="no source hooks are needed: all observation points are substituted from outside (fake transports, time, Lock, sys.modules['usb1'])",
                         baseline_off_cmd="cd /repo && /venv/bin/python -m pytest -ra -q -p no:cacheprovider --timeout=900 --continue-on-collection-errors",
-                        source_commits=["b28e365", "7450df8", "67c86ea", "8c606b7", "c460e81"], add_only=True),
+                        source_commits=[], add_only=True),
              engines=[dict(name="lean-model", path="lean/", serves_properties=sorted(CLAIMED), kind_free_text="hand-written executable Lean 4 model + property theorems; compiled driver; Python differential harness (harness/)")],
              checks=checks,
-             notes="source_commits are the five unguarded `fix:` commits (F1-F5, see known_findings.json and DESIGN.md section 5); there are no guarded hooks.",
+             notes="There are no guarded source hooks (hooks.source_commits is empty). /repo carries seven unguarded `fix:` commits for genuine defects F1-F7 (b28e365, 7450df8, 67c86ea, 8c606b7, c460e81, 2e4e5be, 42f477e), recorded as `fixed` in known_findings.json and described in DESIGN.md section 5; K1 (C06) is a known finding.",
              not_applicable=na)
     with open(os.path.join(HERE, "MANIFEST.json"), "w") as f:
         json.dump(m, f, indent=1)
